@@ -68,11 +68,12 @@ Proof.
   induction evs as [|e evs IH]; intros m; cbn [fold_left].
   - rewrite !cnt_nil. lia.
   - destruct (IH (m_apply m e)) as [H1 [H2 H3]]. rewrite H1, H2, H3, !cnt_cons.
-    destruct e as [r|r|k]; cbn [m_apply is_cnt].
+    destruct e as [r|r|k|]; cbn [m_apply is_cnt].
     + unfold m_register. destruct (memZ r (m_reg m)); cbn; lia.
     + cbn. lia.
     + cbn [m_count m_mul m_add m_upd].
       destruct (Z.eqb_spec k 0), (Z.eqb_spec k 1), (Z.eqb_spec k 2); lia.
+    + lia.
 Qed.
 
 (* ------------------------------------------------------------------ one rank's "iter" trace *)
@@ -89,7 +90,7 @@ Lemma step_view q m e t :
     memZ q (m_reg (m_apply m e)) = memZ q (m_reg m) || is_reg q e.
 Proof.
   intros Hf. pose proof (find_tr_key _ _ _ Hf) as Hk. unfold reg1.
-  destruct e as [r|r|k]; cbn [m_apply is_reg is_use].
+  destruct e as [r|r|k|]; cbn [m_apply is_reg is_use].
   - (* ERegister *)
     unfold m_register. destruct (memZ r (m_reg m)) eqn:Em.
     + exists t. destruct (Z.eqb_spec r q) as [->|Hne].
@@ -118,6 +119,8 @@ Proof.
   - (* ECount *)
     cbn [m_count m_traces m_files m_reg andb]. exists t.
     rewrite !orb_false_r. repeat split; auto. lia.
+  - (* EFail *)
+    cbn [andb]. exists t. rewrite !orb_false_r. repeat split; auto. lia.
 Qed.
 
 Definition newly (q : Z) (m : mstate) (evs : list mev) : bool :=
